@@ -9,7 +9,8 @@ RULE = ("record lists of length 1..200 (log-uniform), names of 0..40 printable c
         "and ';' lines before/after the header and between sequence lines, LF or CRLF per record, with or without final "
         "newline; read through Parse, Read (file) and ReadGz (Go's gzip writer, one member or two concatenated members); "
         "Build/Write round trips; ParseConcurrent / ReadConcurrent / ReadGzConcurrent on channel capacities 0..1000 with a "
-        "seeded randomly stalling consumer (stalls up to 3 ms; thorough: also one stall of 1.5 s), also fed through a slow "
+        "seeded randomly stalling consumer (stalls up to 3 ms; plus one stall of 2.5 s in quick / 5 s in thorough with the "
+        "producer blocked on a full channel), also fed through a slow "
         "io.Pipe reader for capacities 0,1,2,3,8 (parsing overlaps consumption); whitespace-only lines among the ignorable "
         "lines; Build's text is held across further Build calls (sequential and two goroutines). Quick tier: a race-detector run over a subset incl. a > 64 KiB stream. "
         "non-trivial = at least one record has a non-empty sequence; distinct by case text")
@@ -18,7 +19,11 @@ TRUSTED_BASE = ["compress/gzip (Go's writer and reader are both outside the mode
                 "bufio.Scanner/ScanLines modelled in Lean (Model/Fasta.lean scanLines); os file I/O",
                 "the Go scheduler and memory model: the channel semantics of Base/Chan.lean is the language specification's, "
                 "data races are looked for by the -race runs only"]
-ASSUMPTIONS = ["names may contain non-ASCII characters; the model works on code points, Go on UTF-8 bytes: they agree because no byte of a "
+ASSUMPTIONS = ["a producer that abandons a blocked send after more than 2.5 s (quick) / 5 s (thorough) is out of reach of the stalled-"
+               "consumer cases; the model has no clock",
+               "several parsers in one process: every Parse case also runs two more Parse calls on the same text and one on "
+               "another text concurrently, every stream case runs next to another ParseConcurrent; all results are judged",
+               "names may contain non-ASCII characters; the model works on code points, Go on UTF-8 bytes: they agree because no byte of a "
                "multi-byte character is LF, CR, '>' or ';' (argued and tested, not proved); LinesFit counts characters, the "
                "scanner bytes (irrelevant below 2^31/4 characters per line)",
                "'blank line' = empty line or a line of blanks and tabs (other Unicode white space is modelled, goIsSpace, and tied by "
@@ -48,7 +53,7 @@ TIMEOUT_MS = 60000
 
 LETTERS = string.ascii_letters
 PRINTABLE = "".join(chr(c) for c in range(32, 127))
-COMMENTCH = PRINTABLE + "\t"
+COMMENTCH = PRINTABLE + "\t" + "éΩ世☃"
 
 
 def seq(r, n):
@@ -194,9 +199,13 @@ def cases(seed, tier):
     yield ["layout", "gz2", "1", "2", "".join(r.choices(PRINTABLE + NONASCII, k=70000)), seq(r, 100), "1", "9", "", "b", "", "",
            "世界 🧬 é", seq(r, 50), "0", "0", "", "", "", ""]
     yield stream_case(r, [("".join(r.choices(PRINTABLE + NONASCII, k=66000)), seq(r, 70000)), ("é", "A")], cap=0, src="gz2")
-    if not quick:
-        for cap in (0, 1, 5):   # a slow consumer: one stall of 1.5 s
-            yield stream_case(r, rec_list(r, 5000, nmax=12), cap=cap, src="mem", stall=2500)
+    # a SLOW consumer: one long stall before its second receive, with more records than the channel holds
+    # (n >= cap + 3), so that the producer sits blocked on a send for the whole stall - a producer that gives up
+    # on a blocked send after a timeout loses a record here (quick: 2.5 s, one case; thorough: 5 s, three cases)
+    for cap in ((1,) if quick else (0, 1, 5)):
+        n = cap + 3 + r.randint(0, 6)
+        recs = [("slow%02d" % i, seq(r, r.choice([1, 20, 200]))) for i in range(n)]
+        yield stream_case(r, recs, cap=cap, src="mem", stall=1000 + (2500 if quick else 5000))
     # CR LF files whose single sequence line ends right at a multiple of 64 KiB: with k*65536-1 letters the '\r' is the
     # last byte of a 64 KiB piece (a scanner / split function that cuts long lines into buffer-sized pieces before it
     # has seen the line end would keep it); lengths around it as well; Parse and ParseConcurrent
